@@ -131,8 +131,10 @@ void* verif_rt__Znwm(u64 n);
 extern int verif_live_allocs;
 #ifdef __CPROVER__
 #define VERIF_NEW(T) (verif_live_allocs++, __CPROVER_allocate(sizeof(T), 0))
+#define VERIF_NEW_ARRAY(T, n) (verif_live_allocs++, __CPROVER_allocate(sizeof(T) * (n), 0))
 #else
 #define VERIF_NEW(T) verif_rt__Znwm(sizeof(T))
+#define VERIF_NEW_ARRAY(T, n) verif_rt__Znwm(sizeof(T) * (n))
 #endif
 
 /* ---- kernel-visible API (same names as in rt/verif.h) ------------------------------------ */
